@@ -7,15 +7,18 @@ register("C05",
                    "GtModel.C05.editDistance_fresh_J", "GtModel.C05.no_internal_error",
                    "GtModel.C05.observations_nested", "GtModel.C05.history_independent",
                    "GtModel.C05.mkEdit_refines_L2", "GtModel.C05.history_independent_L2",
-                   "GtModel.C05.observations_contain_L2_cost"],
+                   "GtModel.C05.observations_contain_L2_cost", "GtModel.C05.no_internal_error_docs",
+                   "GtModel.C05.history_independent_docs"],
          streams=["history", "script"],
          assumptions=["oracles as in C04 (every make_distinct oracle, admissible solver answers)",
-                      "the L3->L2 link scriptG(mkEdit ...) = edits ... is PROVED for the fragment without MultiSetEdit "
-                      "(mkEdit_refines_L2); with MultiSetEdit it is validated by the streams only"],
+                      "the L3->L2 link scriptG(mkEdit ...) = toD(edits ...) is PROVED for every pair of trees "
+                      "(mkEdit_refines_L2)"],
          trusted=["harness/lazyinst.py"],
          partial="*_every_machine: no_internal_error / observations_nested / history_independent proved with no "
                  "hypothesis (both values of quiet) for EVERY machine class incl. MultiSetEdit+matcher satisfying the "
                  "structural invariant; no_internal_error / history_independent(_L2): for the machine of "
                  "from.edits(to) when there is no DictNode on the from side (distinct keys, to-side in fkOK; outside "
-                 "it: finding D24 / coll-ub), where finishing after any history yields L2's script itself; not "
-                 "proved: the invariant of the fresh MultiSetEdit (mkMs) and its L3->L2 link")
+                 "it: finding D24 / coll-ub), where finishing after any history yields L2's script itself; "
+                 "no_internal_error_docs / history_independent_docs: FULL statements for every pair of documents and "
+                 "every option set (with key edits: every full-size solver oracle and every make_distinct oracle); "
+                 "the result of finishing after any history is L2's diffDocs script itself")
